@@ -82,27 +82,27 @@ func parseProp(id, rule string, quick, thorough int, tweak func(p *Profile), ora
 const caseRule = "random declarations (reflect.StructOf structs with generated tags: all option kinds, nested groups with namespaces, tag-declared and programmatic commands, positional args, callbacks, custom types), random parser option sets / handlers / environment, and argument vectors drawn from the declared names in every spelling plus unknown, near-miss, weird and arbitrary-byte tokens; every case is distinct by construction text and non-trivial (it builds a parser and parses); "
 
 func init() {
-	parseProp("C01", caseRule+"emphasis: many occurrences per option, all value kinds", 600, 60000, func(p *Profile) {
+	parseProp("C01", caseRule+"emphasis: many occurrences per option, all value kinds", 2500, 100000, func(p *Profile) {
 		p.ArgvLen = 10
 		p.Unknown = 0.02
 		p.Weird = 0.02
 		p.InitVals = 0.3
 		p.BadDecl = 0.01
 	}, oracleNoPanic)
-	parseProp("C03", caseRule+"emphasis: pass-through options, terminators, weird tokens", 600, 60000, func(p *Profile) {
+	parseProp("C03", caseRule+"emphasis: pass-through options, terminators, weird tokens", 2500, 100000, func(p *Profile) {
 		p.ArgvLen = 9
 		p.Unknown = 0.15
 		p.Weird = 0.15
 		p.BadDecl = 0.01
 	}, oracleNoPanic, oracleConserved)
-	parseProp("C04", caseRule+"emphasis: arbitrary bytes, malformed tokens, PrintErrors", 600, 60000, func(p *Profile) {
+	parseProp("C04", caseRule+"emphasis: arbitrary bytes, malformed tokens, PrintErrors", 2500, 100000, func(p *Profile) {
 		p.ArgvLen = 8
 		p.Unknown = 0.15
 		p.Weird = 0.3
 		p.ValueBad = 0.3
 		p.OptsAlways = 0
 	}, oracleNoPanic, oracleContained)
-	parseProp("C06", caseRule+"emphasis: required options at every level and positional count constraints", 600, 60000, func(p *Profile) {
+	parseProp("C06", caseRule+"emphasis: required options at every level and positional count constraints", 2500, 100000, func(p *Profile) {
 		p.Required = 0.5
 		p.PosArgs = 0.6
 		p.Unknown = 0.02
@@ -110,26 +110,26 @@ func init() {
 		p.BadDecl = 0.01
 		p.ValueBad = 0.02
 	}, oracleNoPanic, oracleExec)
-	parseProp("C07", caseRule+"emphasis: unknown / near-miss / out-of-scope options under the three policies", 600, 60000, func(p *Profile) {
+	parseProp("C07", caseRule+"emphasis: unknown / near-miss / out-of-scope options under the three policies", 2500, 100000, func(p *Profile) {
 		p.Unknown = 0.3
 		p.Weird = 0.05
 		p.BadDecl = 0.01
 	}, oracleNoPanic, oracleHandler)
-	parseProp("C08", caseRule+"emphasis: deep command trees, aliases, name clashes between levels", 600, 60000, func(p *Profile) {
+	parseProp("C08", caseRule+"emphasis: deep command trees, aliases, name clashes between levels", 2500, 100000, func(p *Profile) {
 		p.MaxCmdDepth = 3
 		p.MaxSubs = 4
 		p.Unknown = 0.04
 		p.BadDecl = 0.01
 		p.PosArgs = 0.1
 	}, oracleNoPanic)
-	parseProp("C09", caseRule+"emphasis: executable commands at every level, faults injected in otherwise valid vectors, CommandHandler", 600, 60000, func(p *Profile) {
+	parseProp("C09", caseRule+"emphasis: executable commands at every level, faults injected in otherwise valid vectors, CommandHandler", 2500, 100000, func(p *Profile) {
 		p.MaxCmdDepth = 3
 		p.Required = 0.3
 		p.Unknown = 0.1
 		p.ValueBad = 0.15
 		p.BadDecl = 0.01
 	}, oracleNoPanic, oracleExec, oracleConserved)
-	parseProp("C10", caseRule+"emphasis: positional arguments of all kinds interleaved with options and the terminator", 600, 60000, func(p *Profile) {
+	parseProp("C10", caseRule+"emphasis: positional arguments of all kinds interleaved with options and the terminator", 2500, 100000, func(p *Profile) {
 		p.PosArgs = 0.9
 		p.Unknown = 0.03
 		p.BadDecl = 0.01
